@@ -279,6 +279,8 @@ struct Job {
     /// (dimension label, env)
     variants: Vec<(String, Vec<(String, String)>)>,
     label: String,
+    /// input directories on the command line (relative to the scratch root); empty = the one root directory
+    dirs: Vec<String>,
 }
 
 pub fn run(ctx: &Ctx) -> (Spec, Report) {
@@ -313,7 +315,7 @@ pub fn run(ctx: &Ctx) -> (Spec, Report) {
                         .into_iter()
                         .map(|p| (format!("perm:{}", p.iter().map(|x| x.to_string()).collect::<Vec<_>>().join(",")), vec![("TYPESHARE_VERIF_ORDER".to_string(), format!("perm:{}", p.iter().map(|x| x.to_string()).collect::<Vec<_>>().join(",")))]))
                         .collect();
-                    jobs.push(Job { tree, lang, multi, variants, label: format!("all-permutations-k{k}-{rep_i}") });
+                    jobs.push(Job { tree, lang, multi, variants, label: format!("all-permutations-k{k}-{rep_i}"), dirs: vec![] });
                 }
             }
         }
@@ -329,7 +331,30 @@ pub fn run(ctx: &Ctx) -> (Spec, Report) {
             }
             let n = ctx.tier.pick(40, 200);
             let variants = (0..n).map(|i| (format!("seed:{i}"), vec![("TYPESHARE_VERIF_ORDER".to_string(), format!("seed:{}", seed.wrapping_mul(131).wrapping_add(i as u64)))])).collect();
-            jobs.push(Job { tree, lang, multi, variants, label: format!("sampled-permutations-k{k}") });
+            jobs.push(Job { tree, lang, multi, variants, label: format!("sampled-permutations-k{k}"), dirs: vec![] });
+        }
+    }
+    // (b2) overlapping input directories under real schedules: every file is reachable through two or three of the
+    //      directories named on the command line, the walkers race for it, and exactly one of them may deliver it.
+    //      The per-path delays are a function of the path, so both visits of a file are delayed alike
+    for &lang in &[LangId::Ts, LangId::Python, LangId::Swift] {
+        for multi in [false, true] {
+            let items = gen_items(&mut rng, 40, langs_const.contains(&lang), langs_const.contains(&lang));
+            let mut tree = layout(&items, 8, 2, &mut rng);
+            if multi {
+                add_uses(&mut tree, &items);
+            }
+            let mut variants = vec![];
+            for th in [1usize, 2, 3, 4, 6, 8, 12, 16] {
+                for ds in 0..ctx.tier.pick(5, 16) {
+                    let mut env = vec![("TYPESHARE_VERIF_THREADS".to_string(), th.to_string())];
+                    if ds % 2 == 1 {
+                        env.push(("TYPESHARE_VERIF_DELAYS".to_string(), format!("{}:{}", seed.wrapping_add(ds), 800)));
+                    }
+                    variants.push((format!("threads={th},rep={ds}"), env));
+                }
+            }
+            jobs.push(Job { tree, lang, multi, variants, label: "overlapping-roots".into(), dirs: vec!["src_root".into(), "src_root/alpha_core/src".into(), "src_root/beta-util".into(), "src_root/alpha_core".into()] });
         }
     }
     // (b) real schedules: thread counts x delay seeds
@@ -347,7 +372,7 @@ pub fn run(ctx: &Ctx) -> (Spec, Report) {
                     variants.push((format!("threads={th},delays={ds}"), vec![("TYPESHARE_VERIF_THREADS".to_string(), th.to_string()), ("TYPESHARE_VERIF_DELAYS".to_string(), format!("{}:{}", seed.wrapping_add(ds), 1500))]));
                 }
             }
-            jobs.push(Job { tree, lang, multi, variants, label: "real-schedules".into() });
+            jobs.push(Job { tree, lang, multi, variants, label: "real-schedules".into(), dirs: vec![] });
         }
     }
     // (c) fresh processes: per-process hash seeds; incl. a name defined in two other crates and reached through a re-export
@@ -372,7 +397,7 @@ pub fn run(ctx: &Ctx) -> (Spec, Report) {
             }
             let tree = Tree { files, n_source_files: 4, has_consts: false };
             let variants = (0..ctx.tier.pick(24, 120)).map(|i| (format!("process#{i}"), vec![])).collect();
-            jobs.push(Job { tree, lang, multi, variants, label: "fresh-processes-reexport".into() });
+            jobs.push(Job { tree, lang, multi, variants, label: "fresh-processes-reexport".into(), dirs: vec![] });
         }
     }
     // (c') random name-resolution ambiguities: one name defined in 2-3 crates (with or without different serde renames),
@@ -416,14 +441,14 @@ pub fn run(ctx: &Ctx) -> (Spec, Report) {
         for sd in 0..ctx.tier.pick(8, 30) {
             variants.push((format!("order=seed:{sd}"), vec![("TYPESHARE_VERIF_ORDER".to_string(), format!("seed:{sd}"))]));
         }
-        jobs.push(Job { tree, lang, multi: true, variants, label: "fresh-processes-ambiguous-names".into() });
+        jobs.push(Job { tree, lang, multi: true, variants, label: "fresh-processes-ambiguous-names".into(), dirs: vec![] });
     }
     for &lang in ALL_LANGS.iter() {
         let items = gen_items(&mut rng, 14, langs_const.contains(&lang), langs_const.contains(&lang));
         let mut tree = layout(&items, 7, 3, &mut rng);
         add_uses(&mut tree, &items);
         let variants = (0..ctx.tier.pick(12, 60)).map(|i| (format!("process#{i}"), vec![])).collect();
-        jobs.push(Job { tree, lang, multi: true, variants, label: "fresh-processes".into() });
+        jobs.push(Job { tree, lang, multi: true, variants, label: "fresh-processes".into(), dirs: vec![] });
     }
 
     let cli = ctx.cli.clone();
@@ -445,7 +470,8 @@ pub fn run(ctx: &Ctx) -> (Spec, Report) {
         let mut reference: Option<(String, BTreeMap<String, Vec<u8>>)> = None;
         let mut orders: BTreeSet<Vec<String>> = BTreeSet::new();
         for (vi, (vlabel, env)) in job.variants.iter().enumerate() {
-            let r = run_tree(&cli, &root, job.lang, &cfg, job.multi, env.clone(), "v", None);
+            let dirs: Vec<&str> = if job.dirs.is_empty() { vec!["src_root"] } else { job.dirs.iter().map(|d| d.as_str()).filter(|d| root.join(d).is_dir()).collect() };
+            let r = run_tree_dirs(&cli, &root, job.lang, &cfg, job.multi, env.clone(), "v", None, &dirs);
             rep.eval(1);
             rep.count("cli_runs", 1);
             rep.count(&format!("runs_{}", job.label.split("-k").next().unwrap_or(&job.label)), 1);
@@ -556,7 +582,7 @@ pub fn run(ctx: &Ctx) -> (Spec, Report) {
     }
     let spec = Spec {
         level: "exploration",
-        rule: "real hooked binary on generated trees (structs, enums, aliases, consts, a quarter of them annotated as #[typeshare::typeshare], over k files in several directories/crates, cross-file references): every permutation of arrival order for k <= 5 (quick) / 6 (thorough) via TYPESHARE_VERIF_ORDER, seeded permutations for k = 8/12/24, thread counts 1..16 x injected per-path delays (distinct delivered orders counted from the hook log), repeated processes for fresh hash seeds incl. a name defined in two other crates behind a re-export, and 5 re-splits of the same items; single- and multi-file mode, 6 languages; oracle = byte equality with the first run; thorough adds ThreadSanitizer and Miri (many-seeds) runs of the CLI; distinct = (workload, language, mode, more-than-one-order-observed)".into(),
+        rule: "real hooked binary on generated trees (structs, enums, aliases, consts, a quarter of them annotated as #[typeshare::typeshare], over k files in several directories/crates, cross-file references): every permutation of arrival order for k <= 5 (quick) / 6 (thorough) via TYPESHARE_VERIF_ORDER, seeded permutations for k = 8/12/24, thread counts 1..16 x injected per-path delays (distinct delivered orders counted from the hook log), overlapping input directories (each file reachable through 2-4 of them) under 8 thread counts with and without delays, repeated processes for fresh hash seeds incl. a name defined in two other crates behind a re-export, and 5 re-splits of the same items; single- and multi-file mode, 6 languages; oracle = byte equality with the first run; thorough adds ThreadSanitizer and Miri (many-seeds) runs of the CLI; distinct = (workload, language, mode, more-than-one-order-observed)".into(),
         assumptions: vec![
             "the collector hook delivers exactly the permutation requested (its log is read back)".into(),
             "same-named items in one single-file run are outside the domain (the output would define a name twice)".into(),
